@@ -38,6 +38,7 @@
 #include <xalanc/PlatformSupport/DOMStringHelper.hpp>
 #include <xalanc/PlatformSupport/PrefixResolver.hpp>
 #include <xalanc/PlatformSupport/Writer.hpp>
+#include <xalanc/PlatformSupport/XalanOutputStream.hpp>
 #include <xalanc/PlatformSupport/XalanTranscodingServices.hpp>
 #include <xalanc/PlatformSupport/XalanUnicode.hpp>
 #include <xalanc/PlatformSupport/XalanXMLChar.hpp>
@@ -846,6 +847,37 @@ FormatterToHTML::writeAttrString(
 void
 FormatterToHTML::accumCommentData(const XalanDOMChar*   data)
 {
+    // There are no character references inside a comment, so a
+    // character the output encoding cannot represent is an error.
+    if (m_stream != 0)
+    {
+        for (const XalanDOMChar* p = data; *p != 0; ++p)
+        {
+            if (*p > m_maxCharacter)
+            {
+                XalanUnicodeChar    theChar = *p;
+
+                if (isUTF16Surrogate(*p) == true &&
+                    0xdc00 <= p[1] && p[1] < 0xe000)
+                {
+                    theChar = ((*p - 0xd800) << 10) + p[1] - 0xdc00 + 0x00010000;
+
+                    ++p;
+                }
+
+                if (m_stream->canTranscodeTo(theChar) == false)
+                {
+                    XalanDOMString  theBuffer(getMemoryManager());
+
+                    throw XalanTranscodingServices::UnrepresentableCharacterException(
+                                theChar,
+                                m_encoding,
+                                theBuffer);
+                }
+            }
+        }
+    }
+
     accumName(data);
 }
 
